@@ -311,3 +311,192 @@ Section Decision.
     destruct (is_utf7 (filter (fun c => c <? 128) g1)) eqn:E; cbn [negb fst]; [reflexivity | exact E].
   Qed.
 End Decision.
+
+(* ------------------------------------------------------------------ removed elements, full strength *)
+Lemma lc_idem c : lc_byte (lc_byte c) = lc_byte c.
+Proof.
+  unfold lc_byte. destruct ((65 <=? c) && (c <=? 90)) eqn:E; [|rewrite E; reflexivity].
+  apply andb_true_iff in E as [E1 E2]. apply N.leb_le in E1, E2.
+  destruct ((65 <=? c + 32) && (c + 32 <=? 90)) eqn:F; [|reflexivity].
+  apply andb_true_iff in F as [_ F2]. apply N.leb_le in F2. lia.
+Qed.
+
+Lemma starts_ci_map (p : list N) : forall y, starts_ci p y = starts p (map lc_byte y).
+Proof. induction p as [|a p IH]; intro y; [reflexivity|]. destruct y as [|b y]; [reflexivity|]. cbn [starts_ci starts map]. rewrite IH. reflexivity. Qed.
+
+Lemma is_word_lc c : is_word (lc_byte c) = is_word c.
+Proof.
+  unfold lc_byte. destruct ((65 <=? c) && (c <=? 90)) eqn:E; [|reflexivity].
+  apply andb_true_iff in E as [E1 E2]. apply N.leb_le in E1, E2. unfold is_word.
+  repeat match goal with |- context [?a <=? ?b] => let H := fresh in destruct (N.leb_spec a b) as [H|H] end;
+  repeat match goal with |- context [?a =? ?b] => let H := fresh in destruct (N.eqb_spec a b) as [H|H] end; try reflexivity; lia.
+Qed.
+
+Lemma boundary_map k : forall y, boundary_after k (map lc_byte y) = boundary_after k y.
+Proof.
+  induction k as [|k IH]; intro y; unfold boundary_after in *.
+  - destruct y as [|c y]; [reflexivity|]. cbn [skipn map]. rewrite is_word_lc. reflexivity.
+  - destruct y as [|c y]; [reflexivity|]. cbn [skipn map]. apply IH.
+Qed.
+
+Lemma map_lc_idem (y : list N) : map lc_byte (map lc_byte y) = map lc_byte y.
+Proof. induction y as [|c y IH]; [reflexivity|]. cbn [map]. rewrite lc_idem, IH. reflexivity. Qed.
+
+Lemma opens_map n y : opens n (map lc_byte y) = opens n y.
+Proof. unfold opens. rewrite !starts_ci_map, map_lc_idem, boundary_map. reflexivity. Qed.
+
+Lemma open_name_map y : open_name (map lc_byte y) = open_name y.
+Proof.
+  unfold open_name. induction NAMES as [|n names IH]; [reflexivity|].
+  cbn [find]. rewrite opens_map. destruct (opens n y); [reflexivity | exact IH].
+Qed.
+
+Lemma starts_map (p : list N) : forall y, starts p y = true -> starts (map lc_byte p) (map lc_byte y) = true.
+Proof.
+  induction p as [|a p IH]; intros y H; [reflexivity|]. destruct y as [|b y]; [discriminate|].
+  cbn [starts] in H. apply andb_true_iff in H as [H1 H2]. apply N.eqb_eq in H1. subst b.
+  cbn [map starts]. rewrite N.eqb_refl. apply IH, H2.
+Qed.
+
+Lemma head_ok_map x : head_ok (map lc_byte x) = head_ok x.
+Proof. destruct x as [|c x]; [reflexivity|]. cbn [map head_ok]. rewrite is_word_lc. reflexivity. Qed.
+
+(* the opener in any spelling of the name *)
+Lemma opener_ci n nm x : In n NAMES -> map lc_byte nm = n -> head_ok x = true ->
+  starts CMT (60 :: nm ++ x) = false /\ open_name (60 :: nm ++ x) = Some n.
+Proof.
+  intros Hn Hm Hx.
+  assert (E : map lc_byte (60 :: nm ++ x) = 60 :: n ++ map lc_byte x).
+  { cbn [map]. rewrite map_app, Hm. reflexivity. }
+  destruct (opener n (map lc_byte x) Hn) as [O1 O2]; [rewrite head_ok_map; exact Hx|].
+  split.
+  - destruct (starts CMT (60 :: nm ++ x)) eqn:S; [|reflexivity].
+    apply starts_map in S. rewrite E in S. change (map lc_byte CMT) with CMT in S. congruence.
+  - rewrite <- open_name_map, E. exact O2.
+Qed.
+
+Lemma starts_ci_lc (p : list N) : forall p' z, map lc_byte p' = p -> starts_ci p (p' ++ z) = true.
+Proof.
+  induction p as [|a p IH]; intros p' z H; [reflexivity|].
+  destruct p' as [|b p']; [discriminate|]. cbn [map] in H. injection H as H1 H2.
+  cbn [app starts_ci]. rewrite H1, N.eqb_refl. apply IH, H2.
+Qed.
+
+Lemma end_tag_ci n nm ws post : map lc_byte nm = n -> forallb is_sp ws = true ->
+  end_tag n ((60 :: 47 :: nm) ++ ws ++ 62 :: post) = Some (S (2 + List.length n + List.length ws)).
+Proof.
+  intros Hm Hw. unfold end_tag.
+  rewrite (starts_ci_lc (60 :: 47 :: n) (60 :: 47 :: nm)) by (cbn [map]; rewrite Hm; reflexivity).
+  replace (2 + List.length n)%nat with (List.length (60 :: 47 :: nm)) by (cbn [List.length]; rewrite <- Hm, map_length; reflexivity).
+  rewrite skipn_len_app. rewrite (after_ws_ws ws _ _ Hw). cbn [List.length]. rewrite <- Hm, map_length. reflexivity.
+Qed.
+
+(* locality of the end-tag test: once at least one byte lies before it, an opening angle bracket ends the examination *)
+Definition no60 (p : list N) : bool := forallb (fun c => negb (c =? 60)) p.
+
+Lemma after_ws_local (u : list N) : forall z k, after_ws (u ++ 60 :: z) k = after_ws (u ++ [60]) k.
+Proof.
+  induction u as [|c u IH]; intros z k; [reflexivity|].
+  cbn [app after_ws]. destruct (is_sp c); [apply IH|]. destruct (c =? 62); reflexivity.
+Qed.
+
+Definition et (p : list N) (k : nat) (x : list N) : option nat :=
+  if starts_ci p x then after_ws (skipn (List.length p) x) k else None.
+
+Lemma et_local (p : list N) : forall u z k, no60 p = true -> et p k (u ++ 60 :: z) = et p k (u ++ [60]).
+Proof.
+  induction p as [|a p IH]; intros u z k Hp.
+  - unfold et. cbn [starts_ci List.length skipn]. apply after_ws_local.
+  - cbn [no60 forallb] in Hp. apply andb_true_iff in Hp as [Ha Hp]. apply negb_true_iff in Ha.
+    destruct u as [|b u].
+    + unfold et. cbn [app starts_ci]. change (lc_byte 60) with 60. rewrite Ha. reflexivity.
+    + unfold et in *. cbn [app starts_ci List.length skipn].
+      destruct (a =? lc_byte b); [|reflexivity]. cbn [andb]. apply (IH u z k Hp).
+Qed.
+
+Lemma end_tag_local n b u z : no60 (47 :: n) = true ->
+  end_tag n ((b :: u) ++ 60 :: z) = end_tag n ((b :: u) ++ [60]).
+Proof.
+  intro Hn. unfold end_tag. cbn [app starts_ci]. change (2 + List.length n)%nat with (S (List.length (47 :: n))).
+  cbn [skipn]. destruct (60 =? lc_byte b); [|reflexivity]. cbn [andb].
+  exact (et_local (47 :: n) u z _ Hn).
+Qed.
+
+Lemma names_no60 n : In n NAMES -> no60 (47 :: n) = true.
+Proof.
+  intro Hn. unfold NAMES in Hn. cbn [In] in Hn.
+  repeat (destruct Hn as [Hn|Hn]; [subst n; vm_compute; reflexivity|]). contradiction.
+Qed.
+
+Lemma in_elem_body_full n (body : list N) : forall z, no60 (47 :: n) = true -> no_end n body = true ->
+  strip_st 0 (InElem n) (body ++ 60 :: z) = strip_st 0 (InElem n) (60 :: z).
+Proof.
+  induction body as [|a b IH]; intros z Hn H; [reflexivity|].
+  cbn [no_end] in H. apply andb_true_iff in H as [H1 H2].
+  change ((a :: b) ++ 60 :: z) with (a :: (b ++ 60 :: z)). cbn [strip_st].
+  change (a :: b ++ 60 :: z) with ((a :: b) ++ 60 :: z). rewrite (end_tag_local n a b z Hn).
+  destruct (end_tag n ((a :: b) ++ [60])); [discriminate|]. apply IH; assumption.
+Qed.
+
+Lemma in_elem_open n (body : list N) : never_ended n body = true -> strip_st 0 (InElem n) body = [].
+Proof.
+  induction body as [|a b IH]; intro H; [reflexivity|].
+  cbn [never_ended] in H. apply andb_true_iff in H as [H1 H2].
+  cbn [strip_st]. destruct (end_tag n (a :: b)); [discriminate|]. apply IH, H2.
+Qed.
+
+Lemma element_segment_full n nm nm2 body ws post :
+  In n NAMES -> map lc_byte nm = n -> map lc_byte nm2 = n ->
+  body_start_ok body = true -> no_end n body = true -> forallb is_sp ws = true ->
+  strip_st 0 Keep ((60 :: nm) ++ body ++ (60 :: 47 :: nm2) ++ ws ++ 62 :: post) = strip_st 0 Keep post.
+Proof.
+  intros Hn Hm Hm2 Hb Hs Hw.
+  set (tail := (60 :: 47 :: nm2) ++ ws ++ 62 :: post).
+  assert (Hx : head_ok (body ++ tail) = true) by (destruct body as [|c b]; [reflexivity | exact Hb]).
+  destruct (opener_ci n nm (body ++ tail) Hn Hm Hx) as [O1 O2].
+  change ((60 :: nm) ++ body ++ tail) with (60 :: nm ++ body ++ tail).
+  cbn [strip_st]. rewrite O1, O2.
+  replace (List.length n) with (List.length nm) by (rewrite <- Hm, map_length; reflexivity).
+  rewrite skip_exact. unfold tail at 1. change ((60 :: 47 :: nm2) ++ ws ++ 62 :: post) with (60 :: (47 :: nm2) ++ ws ++ 62 :: post).
+  rewrite (in_elem_body_full n body _ (names_no60 n Hn) Hs).
+  change (60 :: (47 :: nm2) ++ ws ++ 62 :: post) with ((60 :: 47 :: nm2) ++ ws ++ 62 :: post).
+  pose proof (end_tag_ci n nm2 ws post Hm2 Hw) as E.
+  change ((60 :: 47 :: nm2) ++ ws ++ 62 :: post) with (60 :: (47 :: nm2 ++ ws ++ 62 :: post)) in *.
+  rewrite (in_elem_close n _ _ _ E). cbn [pred].
+  replace (47 :: nm2 ++ ws ++ 62 :: post) with ((47 :: nm2 ++ ws ++ [62]) ++ post)
+    by (cbn [app]; f_equal; rewrite <- app_assoc; f_equal; rewrite <- app_assoc; reflexivity).
+  replace (2 + List.length n + List.length ws)%nat with (List.length (47 :: nm2 ++ ws ++ [62]))
+    by (cbn [List.length]; rewrite !app_length; cbn [List.length]; rewrite <- Hm2, map_length; lia).
+  exact (skip_exact (47 :: nm2 ++ ws ++ [62]) post Keep).
+Qed.
+
+Lemma element_unterminated n nm body :
+  In n NAMES -> map lc_byte nm = n -> body_start_ok body = true -> never_ended n body = true ->
+  strip_st 0 Keep ((60 :: nm) ++ body) = [].
+Proof.
+  intros Hn Hm Hb Hs.
+  assert (Hx : head_ok body = true) by (destruct body; [reflexivity | exact Hb]).
+  destruct (opener_ci n nm body Hn Hm Hx) as [O1 O2].
+  change ((60 :: nm) ++ body) with (60 :: nm ++ body). cbn [strip_st]. rewrite O1, O2.
+  replace (List.length n) with (List.length nm) by (rewrite <- Hm, map_length; reflexivity).
+  rewrite skip_exact. apply in_elem_open, Hs.
+Qed.
+
+Lemma strip_element_inert_full pre n nm nm2 body ws post :
+  plain pre = true -> ends62 pre = true ->
+  In n NAMES -> map lc_byte nm = n -> map lc_byte nm2 = n ->
+  body_start_ok body = true -> no_end n body = true -> forallb is_sp ws = true ->
+  strip (pre ++ (60 :: nm) ++ body ++ (60 :: 47 :: nm2) ++ ws ++ 62 :: post) = strip (pre ++ post).
+Proof.
+  intros Hp He Hn Hm Hm2 Hb Hs Hw. unfold strip. rewrite !(keep_plain pre _ Hp He).
+  rewrite (element_segment_full n nm nm2 body ws post Hn Hm Hm2 Hb Hs Hw). reflexivity.
+Qed.
+
+Lemma strip_open_element_inert pre n nm body :
+  plain pre = true -> ends62 pre = true ->
+  In n NAMES -> map lc_byte nm = n -> body_start_ok body = true -> never_ended n body = true ->
+  strip (pre ++ (60 :: nm) ++ body) = strip pre.
+Proof.
+  intros Hp He Hn Hm Hb Hs. unfold strip. rewrite (keep_plain pre _ Hp He), (element_unterminated n nm body Hn Hm Hb Hs).
+  rewrite <- (app_nil_r pre) at 2. rewrite (keep_plain pre [] Hp He). reflexivity.
+Qed.
